@@ -48,7 +48,7 @@ var props = []prop{
 		Technique:   "property-based testing (rapid): soundness oracle + metamorphic relation over generated measurements",
 		DesignRef:   "4/C19",
 		Rule:        "cases are lists of 0-6 peers, each with a true clock offset, a request delay and a response delay (dense around +-2s, from ns to hours), answering or silent, under both settings of -disable_timesafeguard; non-trivial = some answering peer has |offset| in [1s,3s] or a round trip > 1s; distinct = hash of the concrete measurement list + flag. Unit network: cases are 0-5 peers served by real TLS status servers (in sync within 400ms / off by >= 4s / not answering in four ways), restart or -join path; non-trivial = at least one silent and one answering peer",
-		Assumptions: []string{"a measurement is Start=t0, Result=t0+d1+offset, End=t0+d1+d2 with d1,d2 >= 0", "unit network runs in real time: a check that takes longer than 1.2s and refuses in-sync peers is counted as inconclusive (label), never reported"},
+		Assumptions: []string{"a measurement is Start=t0, Result=t0+d1+offset, End=t0+d1+d2 with d1,d2 >= 0", "unit network runs in real time: a collection that takes longer than 0.7s and refuses in-sync peers is counted as inconclusive (label), never reported"},
 		Units: []unit{
 			{Name: "safeguard", Pkg: "internal/timesafeguard", Harness: "timesafeguard", Run: "^TestVerifC19$", Rapid: true, Quick: 160000, Thorough: 16000000, QuickTimeoutS: 300, ThoroughTimeoutS: 3000},
 			{Name: "network", Pkg: "internal/timesafeguard", Harness: "timesafeguard", Run: "^TestVerifC19Network$", Rapid: true, Quick: 1600, Thorough: 40000, QuickTimeoutS: 600, ThoroughTimeoutS: 3000},
